@@ -840,6 +840,48 @@ pub fn c20_winsorize_sigma_n0() {
     winsorize_empty(WinsorizeMethod::Sigma, 0.5, 2.25);
 }
 
+/// end to end, nothing stubbed: `winsorize(Quantile, 0.25)` of [a, null, b] (every placement of the null) clips to the
+/// 0.25- and 0.75-quantile of the two valid values. The stubbed harnesses above decide the wiring for every input; this one
+/// ties the wiring to the real `vquantile` on a series WITH a null (added after seeded change C20-m4, a defect of `vquantile`
+/// that only C12 / C08 saw).
+fn winsorize_e2e(pos: usize) {
+    let (a, b) = (small_i32(-8, 8), small_i32(-8, 8));
+    let (af, bf) = (a as f64, b as f64);
+    let x: [f64; 3] = match pos {
+        0 => [f64::NAN, af, bf],
+        1 => [af, f64::NAN, bf],
+        _ => [af, bf, f64::NAN],
+    };
+    let (lo_v, hi_v) = if af <= bf { (af, bf) } else { (bf, af) };
+    let lo = lo_v + (hi_v - lo_v) * 0.25;
+    let hi = lo_v + (hi_v - lo_v) * 0.75;
+    let v = x.to_vec();
+    match v.winsorize(WinsorizeMethod::Quantile, Some(0.25)) {
+        Ok(out) => {
+            let f = check_clip::<3>(&x, out, lo, hi);
+            kani::cover!(f.below && f.above, "both valid values are clipped");
+        },
+        Err(e) => {
+            std::mem::forget(e);
+            assert!(false, "winsorize(Quantile): no error on two valid values");
+        },
+    }
+}
+
+#[kani::proof]
+#[kani::stub(std::fmt::format, crate::util::fmt_stub)]
+#[kani::unwind(8)]
+pub fn c20_winsorize_quantile_e2e_null_first() {
+    winsorize_e2e(0);
+}
+
+#[kani::proof]
+#[kani::stub(std::fmt::format, crate::util::fmt_stub)]
+#[kani::unwind(8)]
+pub fn c20_winsorize_quantile_e2e_null_mid() {
+    winsorize_e2e(1);
+}
+
 // ---------------------------------------------------------------------------------------------
 // Spearman = Pearson of the average ranks; ranks depend on the order relation only
 // ---------------------------------------------------------------------------------------------
